@@ -22,7 +22,11 @@ import (
 	"github.com/superfly/ltx"
 )
 
-func init() { log.SetOutput(io.Discard) }
+func init() {
+	if os.Getenv("LFS_LOG") == "" {
+		log.SetOutput(io.Discard)
+	}
+}
 
 const ChecksumFlag = uint64(1) << 63
 
@@ -498,6 +502,10 @@ type Pager struct {
 	walInit            bool
 	BigEndianWAL       bool
 	Steps              []string // log of issued operations (for samples / replays)
+	// RollbackOnCommitError: when the commit step (journal finalisation) is refused, play the
+	// journal back and finalise again, as SQLite does; CommitErr2 is that second result.
+	RollbackOnCommitError bool
+	CommitErr2            error
 }
 
 func (p *Pager) logf(f string, a ...any) { p.Steps = append(p.Steps, fmt.Sprintf(f, a...)) }
@@ -530,8 +538,11 @@ const (
 )
 
 // busy-timeout like SQLite's: other lock holders (snapshots being streamed, internal writers) come and go
+// BusyTimeout is how long the pager keeps retrying a refused lock.
+var BusyTimeout = 3 * time.Second
+
 func retry(f func() bool) bool {
-	deadline := time.Now().Add(3 * time.Second)
+	deadline := time.Now().Add(BusyTimeout)
 	for {
 		if f() {
 			return true
@@ -737,6 +748,17 @@ func (p *Pager) RunRollbackTx(prev *Image, tx Tx, jm JournalMode, outcome Rollba
 	}
 	p.Rec.CommitJournal(tx.NewSize)
 	if err := finalize(); err != nil {
+		if p.RollbackOnCommitError {
+			// what SQLite does when the journal cannot be finalised: play it back, finalise again
+			for _, pg := range recs {
+				_ = db.WriteDatabaseAt(ctx, dbf, prev.Pages[pg-1], int64(pg-1)*int64(ps), o)
+			}
+			if tx.NewSize > uint32(len(prev.Pages)) && len(prev.Pages) > 0 {
+				_ = db.TruncateDatabase(ctx, int64(len(prev.Pages))*int64(ps))
+			}
+			p.CommitErr2 = finalize()
+			p.logf("commit refused (%v): rolled back, second finalize: %v", err, p.CommitErr2)
+		}
 		unlockAll()
 		return fmt.Errorf("finalize: %w", err)
 	}
